@@ -9,7 +9,12 @@ blocks and one roll-back slot.
 
 Quantifiers: every initial size, fixed/expandable, packed/padded, every alignment boundary, every
 growth law `grow : ℕ → ℕ` (so every expansion factor: the driver instantiates
-`grow n = (size_t)((float)n * exp_factor)`), every request size in ℕ, every pointer given to
+`grow n = (size_t)((float)n * exp_factor)` — in C this cast is undefined behaviour when the float
+product is negative, NaN or ≥ 2^64, and it is evaluated *before* the page-size guard; `grow` is a
+total function, so for such factors the theorems describe the code under the assumption that the
+cast yields *some* `size_t` value), every request size in ℕ, every boundary `ab ∈ ℕ` (for page
+sizes above 2^63 the C sum `size + padding` could wrap; the model's sum is exact — unreachable
+below `pageLimit` only if `ab ≤ 2^63`), every pointer given to
 `free`, every history of malloc/calloc/free/reset/user writes, every allocator schedule.
 
 Documented preconditions (`OpOk`): at a `calloc` the newest page's size is a `size_t` value
@@ -426,7 +431,12 @@ theorem reset_after_run (grow : Nat → Nat) (fresh size ab : Nat) (fixed packed
   refine ⟨p.bytes, ?_, hu, by rw [hf, this]⟩
   rw [hpages, ← this]
 
-/-- one roll-back slot: `free` of the newest block of the newest page removes exactly that block;
+/-- (Pointers are `(page index, offset)`: after `reset` and a new expansion a *stale* pointer into a
+released page has the same model value as the new page's block at that offset, so the model treats
+freeing such a dangling pointer like freeing the newest block; in C the addresses may or may not
+coincide.  Passing a pointer into a released page is a caller error outside C13's quantifier; the
+harness forgets such pointers on `pool_reset`.)
+one roll-back slot: `free` of the newest block of the newest page removes exactly that block;
 once the slot is empty no `free` changes anything; any other pointer changes nothing -/
 theorem release_spec (s : DPool) (p : Option (Nat × Nat)) :
     (s.undo = false → s.release p = s) ∧
@@ -466,6 +476,143 @@ example :
        PPage.mk 6 [1, 1, 238, 238, 238, 238] [PBlk.mk 0 2 4]] 8 4 true
     s.Inv ∧ s.usedBytes = 14 ∧ s.freeBytes = 1 ∧ (s.release (some (1, 4))).free = 4 := by
   decide
+
+/-! ## The spec-level clauses on the concrete model, after any history from the constructor -/
+
+/-- **Transport to the C model.** Construct a pool, run any history; in the state `s` reached
+(ledger `m`):
+* `used_bytes()` lies between what the live blocks of all pages reserve and the total payload, and
+  `used_bytes() + free_bytes()` is the total payload;
+* padded mode (`ab ≥ 1`): every live block starts at a multiple of the boundary within its page;
+* a fixed pool still has exactly one page, of the configured `size`;
+* `reset` leaves one page of the configured `size`, nothing used (`free_ptr = low_ptr`);
+* a non-NULL `calloc c k` result addresses the newest page then owned, lies inside it with its
+  padding, is disjoint from every other live block of that page, is aligned in padded mode, and all
+  its `c * k` bytes read zero. -/
+theorem new_history_model_clauses (grow : Nat → Nat) (fresh size ab : Nat) (fixed packed : Bool) (t : Triple) (m0 m1 : Mem)
+    (s0 : DynamicPool) (hnew : DynamicPool.new size fixed packed ab fresh t m0 = (.ok, some s0, m1))
+    (ops : List Op) (hops : RunOk grow fresh s0 ops m1) :
+    let s := (DynamicPool.run grow fresh s0 ops m1).2.2.1
+    let m := (DynamicPool.run grow fresh s0 ops m1).2.2.2
+    (Spec.DPoolFacts.totalSpan s.pages ≤ s.usedBytes ∧ s.usedBytes ≤ pagesSize s.pages ∧
+      s.usedBytes + s.freeBytes = pagesSize s.pages) ∧
+    (packed = false → 0 < ab → ∀ p ∈ s.pages, ∀ b ∈ p.blocks, b.off % ab = 0) ∧
+    (fixed = true → s.pages.length = 1 ∧ s.topPageSize = size) ∧
+    ((s.reset m).1.pages.length = 1 ∧ (s.reset m).1.topPageSize = size ∧ (s.reset m).1.free = 0) ∧
+    (∀ c k a, (DynamicPool.calloc grow fresh s c k m).1 = some a →
+      let s' := (DynamicPool.calloc grow fresh s c k m).2.1
+      let span := c * k + padOf packed ab (c * k)
+      a.1 = s'.pages.length - 1 ∧ a.2 + span ≤ s'.topPageSize ∧
+      (∀ b ∈ s'.abs.top.blocks.tail, disjoint (a.2, span) (b.off, b.span)) ∧
+      (packed = false → 0 < ab → a.2 % ab = 0) ∧
+      (∀ i, i < c * k → s'.abs.top.bytes.getD (a.2 + i) 0 = 0)) := by
+  intro s m
+  obtain ⟨hi0, ha0, htr, hlive, _, _, hlim⟩ := DynamicPool.new_ok size fixed packed ab fresh t m0 m1 s0 hnew
+  have hz0 : s0.Sized := by
+    intro p hp
+    have : s0.abs.pages = [{ size := size, bytes := List.replicate size fresh, blocks := [] }] := by rw [ha0]; rfl
+    rw [show s0.abs.pages = s0.pages from rfl] at this
+    rw [this, List.mem_singleton] at hp
+    rw [hp]; exact hlim
+  have hh := history_refines grow fresh ops s0 m1 hi0 hz0 (by rw [htr]; omega) hops
+  rw [ha0] at hh
+  have hinv : s.Inv := hh.2.2.1
+  have hsized : s.Sized := hh.2.2.2.1
+  have hwf := DynamicPool.abs_wf s hinv
+  -- configuration of the abstraction
+  have hcfg := Spec.DPoolFacts.run_config grow fresh (DynamicPool.run grow fresh s0 ops m1).2.1
+    (DPool.init size fixed packed ab (List.replicate size fresh))
+  have habs : s.abs = (DPool.run grow fresh (DPool.init size fixed packed ab (List.replicate size fresh))
+      (DynamicPool.run grow fresh s0 ops m1).2.1).2 := hh.2.1
+  have hfx : s.isFixed = fixed := by
+    have : s.abs.fixed = fixed := by rw [habs, hcfg.1]; rfl
+    exact this
+  have hpk : s.isPacked = packed := by
+    have : s.abs.packed = packed := by rw [habs, hcfg.2]; rfl
+    exact this
+  have hab : s.ab = ab := by
+    have : s.abs.ab = ab := by rw [habs, Spec.DPoolFacts.run_ab]; rfl
+    exact this
+  have hlast : s.pages.getLast?.map (·.size) = some size := by
+    have := Spec.DPoolFacts.oldest_page_size_run grow fresh (DynamicPool.run grow fresh s0 ops m1).2.1
+      (DPool.init size fixed packed ab (List.replicate size fresh))
+    rw [← habs] at this
+    exact this
+  obtain ⟨pg, ps, hp, ht, hf, _, _⟩ := DynamicPool.inv_top s hinv
+  refine ⟨?_, ?_, ?_, ?_, ?_⟩
+  · have hu := used_vs_blocks s.abs hwf
+    have hs := used_plus_free s.abs hwf
+    rw [DynamicPool.used_abs s hinv, DynamicPool.free_abs s hinv]
+    exact ⟨hu.1, hu.2.1, hs.2.2⟩
+  · intro hpk' hab' p hpm b hb
+    have := blocks_aligned s.abs hwf (by rw [show s.abs.packed = s.isPacked from rfl, hpk, hpk']) (by
+      rw [show s.abs.ab = s.ab from rfl, hab]; exact hab') p hpm b hb
+    rw [show s.abs.ab = s.ab from rfl, hab] at this
+    exact this
+  · intro hfx'
+    have hlen := hwf.2.2 (by rw [show s.abs.fixed = s.isFixed from rfl, hfx, hfx'])
+    have hlen' : s.pages.length = 1 := hlen
+    refine ⟨hlen', ?_⟩
+    rw [hp] at hlen' hlast
+    have : ps = [] := by cases ps with | nil => rfl | cons _ _ => simp at hlen'
+    subst this
+    simp only [List.getLast?_singleton, Option.map_some, Option.some.injEq] at hlast
+    rw [ht, hlast]
+  · have hr := DynamicPool.reset_ledger_pages s m hinv
+    have hri := DynamicPool.reset_inv s m hinv
+    obtain ⟨pg', ps', hp', ht', hf', _, _⟩ := DynamicPool.inv_top _ hri
+    have hlen : (s.reset m).1.pages.length = 1 := by rw [hr.1]; rfl
+    refine ⟨hlen, ?_, ?_⟩
+    · rw [ht']
+      have e := hr.1
+      rw [hp'] at e
+      simp only [List.cons.injEq] at e
+      rw [e.1]
+      have : (s.pages.getLast?.map (·.size)) = some (s.pages.getLast (by rw [hp]; simp)).size := by
+        rw [List.getLast?_eq_some_getLast (by rw [hp]; simp)]; rfl
+      rw [hlast] at this
+      exact (Option.some.inj this).symm
+    · rw [hf']
+      have e := hr.1
+      rw [hp'] at e
+      simp only [List.cons.injEq] at e
+      rw [e.1]; rfl
+  · intro c k a hsome s' span
+    have hr := DynamicPool.calloc_refines grow fresh s c k m hinv (DynamicPool.top_lt_sizeMod s hinv hsized)
+    have hinv' := DynamicPool.calloc_inv grow fresh s c k m hinv
+    have hwf' := DynamicPool.abs_wf s' hinv'
+    rw [hr.1] at hsome
+    have hz := calloc_zeroed grow fresh s.abs c k _ a hwf hsome
+    have hb := Spec.DPoolFacts.malloc_block grow fresh s.abs (c * k) _ a hwf hz.1
+    simp only at hb
+    have hpages : s'.abs = (DPool.calloc grow fresh s.abs c k (!(m.allocT s.triple).1)).2 := hr.2
+    -- calloc's state is malloc's with the newest page's bytes filled: same blocks, sizes, page count
+    have hcm := Spec.DPoolFacts.calloc_shape grow fresh s.abs c k (!(m.allocT s.triple).1) a hsome
+    obtain ⟨pg', ps', hp', ht', _, _, _⟩ := DynamicPool.inv_top s' hinv'
+    have htop' : s'.abs.top = pg' := DynamicPool.abs_top s' pg' ps' hp'
+    rw [show s.abs.packed = s.isPacked from rfl, show s.abs.ab = s.ab from rfl, hpk, hab] at hb
+    refine ⟨?_, ?_, ?_, ?_, ?_⟩
+    · have : s'.pages.length = s'.abs.pages.length := rfl
+      rw [this, hpages, hcm.1]; exact hb.1
+    · rw [ht', ← htop', hpages, hcm.2.1]; exact hb.2.1
+    · rw [hpages, hcm.2.2]; exact hb.2.2.2.1
+    · intro hpk' hab'
+      have hmem : (⟨a.2, c * k, c * k + padOf packed ab (c * k)⟩ : PBlk) ∈ s'.abs.top.blocks := by
+        rw [hpages, hcm.2.2]
+        exact List.mem_of_mem_head? hb.2.2.1
+      have hal := blocks_aligned s'.abs hwf' (by
+        have : s'.abs.packed = s.isPacked := by rw [hpages]; exact (Spec.DPoolFacts.calloc_config grow fresh s.abs c k _).2.1
+        rw [this, hpk, hpk']) (by
+        have : s'.abs.ab = s.ab := by rw [hpages]; exact (Spec.DPoolFacts.calloc_config grow fresh s.abs c k _).2.2
+        rw [this, hab]; exact hab') s'.abs.top (by
+          rw [htop']; show pg' ∈ s'.pages; rw [hp']; exact List.mem_cons_self ..) _ hmem
+      have hab2 : s'.abs.ab = ab := by
+        have : s'.abs.ab = s.ab := by rw [hpages]; exact (Spec.DPoolFacts.calloc_config grow fresh s.abs c k _).2.2
+        rw [this, hab]
+      rw [hab2] at hal
+      exact hal
+    · intro i hi
+      rw [hpages]; exact hz.2.1 i hi
 
 /-! Non-vacuity of `RunOk`: a history with an expansion, a write into the new page, a roll-back and a
 reset meets its preconditions from a freshly constructed pool -/
